@@ -6,7 +6,9 @@
    the view root is a directory); calls on clean absolute paths "/c1/.../cn" of proper names whose walk is in the
    covered domain ([path_ok]: at most 40 links, no model-fuel exhaustion); outside the listed deviation classes,
    which appear as explicit premises:
-     - set-group-id inheritance        [no_setgid_parent]  (Mkdir, Symlink)
+     (set-group-id inheritance - group of the directory, and the bit for a new directory - was such a premise,
+      [no_setgid_parent], until createDir/createFile/createSymlink were repaired; Mkdir, Symlink, OpenFile,
+      WriteFile, MkdirAll now hold for set-group-id parents too)
      - Link refusing symbolic links    [not_symlink]        (Link)  and  [sym_single] (Remove of a multiply named link)
      - operations on the root / "." ".." last elements: the path ends in a proper name [w ++ [cl]]
      - a Symlink target is given cleaned ([t = clean Linux t]).
@@ -51,13 +53,13 @@ Theorem C01_step_truncate : forall (s : fsys) (sv : sview) (cs : list str) (size
 Proof. exact step_truncate. Qed.
 
 Theorem C01_step_mkdir : forall (s : fsys) (sv : sview) (w : list str) (cl : str) (perm : N),
-  step_hyps s sv -> path_ok s sv SlLstat (w ++ [cl]) -> no_setgid_parent s sv (w ++ [cl]) ->
+  step_hyps s sv -> path_ok s sv SlLstat (w ++ [cl]) ->
   let p := abs_path (w ++ [cl]) in
   (fst (mkdir s (sv_view sv) p perm), proj_res Linux (snd (mkdir s (sv_view sv) p perm))) = k_mkdir s sv p perm.
 Proof. exact step_mkdir. Qed.
 
 Theorem C01_step_symlink : forall (s : fsys) (sv : sview) (w : list str) (cl : str) (t : str),
-  step_hyps s sv -> path_ok s sv SlLstat (w ++ [cl]) -> no_setgid_parent s sv (w ++ [cl]) ->
+  step_hyps s sv -> path_ok s sv SlLstat (w ++ [cl]) ->
   let p := abs_path (w ++ [cl]) in
   (fst (symlink s (sv_view sv) t p), proj_res Linux (snd (symlink s (sv_view sv) t p)))
   = k_symlink s sv (clean Linux t) p.
@@ -119,7 +121,6 @@ Proof. exact step_rename_new. Qed.
 (* WriteFile: OpenFile(O_WRONLY|O_CREATE|O_TRUNC), Write, Close - against open(2) with the same flags + write *)
 Theorem C01_step_write_file : forall (s : fsys) (sv : sview) (w : list str) (cl : str) (data : list N) (perm : N),
   step_hyps s sv -> path_ok s sv SlLstat (w ++ [cl]) -> path_ok s sv SlEval (w ++ [cl]) ->
-  no_setgid_parent_follow s sv (w ++ [cl]) ->
   (fst (write_file s (sv_view sv) (abs_path (w ++ [cl])) data perm),
    proj_res Linux (snd (write_file s (sv_view sv) (abs_path (w ++ [cl])) data perm)))
   = go_write_file s sv (abs_path (w ++ [cl])) data perm.
@@ -134,7 +135,6 @@ Proof. exact step_open_rdonly. Qed.
 
 Theorem C01_step_open_create_trunc : forall (s : fsys) (sv : sview) (vi : nat) (w : list str) (cl : str) (perm : N),
   step_hyps s sv -> path_ok s sv SlLstat (w ++ [cl]) -> path_ok s sv SlEval (w ++ [cl]) ->
-  no_setgid_parent_follow s sv (w ++ [cl]) ->
   open_sim (open_file s (sv_view sv) vi (abs_path (w ++ [cl])) WCT perm) (k_open s sv (abs_path (w ++ [cl])) WCT perm).
 Proof. exact step_open_wct. Qed.
 
@@ -323,8 +323,8 @@ Proof. exact StepCwdExamples.hc_agree. Qed.
 (* MkdirAll "/done/rest" where [done] is a directory walk from the view root to [par] (no symbolic link met, [dir_at]) and
    the first component of [rest] is missing in [par] (or [rest] is empty: everything exists): MemFS (one walk, then the
    creation loop along the path cursor) and os.MkdirAll (stat; recursion on the parent prefix; mkdir) produce the same
-   file system - the chain [mk_chain] of new directories below [par] - and the same answer.  Premises that name listed
-   deviations: the type bit of [par] (Go tests the mode bit, MemFS the node kind) and set-group-id inheritance.  Paths
+   file system - the chain [mk_chain] of new directories below [par] - and the same answer.  Premise that names a
+   deviation: the type bit of [par] (Go tests the mode bit, MemFS the node kind).  Paths
    that meet a symbolic link are outside (listed finding C01-MKDIRALL-LINK for the dangling/looping ones). *)
 Theorem C01_step_mkdir_all : forall (s : fsys) (sv : sview) (perm : N) (done rest : list str) (par : nat),
   let v := sv_view sv in
@@ -333,7 +333,6 @@ Theorem C01_step_mkdir_all : forall (s : fsys) (sv : sview) (perm : N) (done res
   dir_at s v done par ->
   (forall c r, rest = c :: r -> alookup str_eqb c (children (f_heap s) par) = None) ->
   has (m_mode (meta_of (f_heap s) par)) MODE_DIR = true ->
-  (rest <> [] -> is_setgid (m_mode (meta_of (f_heap s) par)) = false) ->
   length (done ++ rest) < SEARCH_FUEL ->
   let p := abs_path (done ++ rest) in
   (fst (mkdir_all s v p perm), proj_res Linux (snd (mkdir_all s v p perm))) = go_mkdir_all (S (length p)) s sv p perm
@@ -348,7 +347,7 @@ Theorem C01_mkdir_all_chain : forall (v : view) (perm : N), v_os v = Linux -> us
   let s' := fst (mk_chain s v dn rest perm) in
   let n' := snd (mk_chain s v dn rest perm) in
   dir_at s' v (done ++ rest) n'
-  /\ (rest <> [] -> children (f_heap s') n' = [] /\ is_setgid (m_mode (meta_of (f_heap s') n')) = false).
+  /\ (rest <> [] -> children (f_heap s') n' = []).
 Proof. exact mk_chain_at. Qed.
 
 Example C01_step_mkdir_all_example :
@@ -460,13 +459,13 @@ Proof. exact step_open_nocreate. Qed.
 (* O_CREATE without O_EXCL (a final link is followed) *)
 Theorem C01_step_open_create : forall (s : fsys) (sv : sview) (vi : nat) (w : list str) (cl : str) (flag perm : N),
   step_hyps s sv -> path_ok s sv SlLstat (w ++ [cl]) -> path_ok s sv SlEval (w ++ [cl]) ->
-  no_setgid_parent_follow s sv (w ++ [cl]) -> has flag O_CREATE = true -> has flag O_EXCL = false ->
+  has flag O_CREATE = true -> has flag O_EXCL = false ->
   open_sim (open_file s (sv_view sv) vi (abs_path (w ++ [cl])) flag perm) (k_open s sv (abs_path (w ++ [cl])) flag perm).
 Proof. exact step_open_create. Qed.
 
 (* O_CREATE with O_EXCL (a final link is not followed: EEXIST, also on a dangling link) *)
 Theorem C01_step_open_excl : forall (s : fsys) (sv : sview) (vi : nat) (w : list str) (cl : str) (flag perm : N),
-  step_hyps s sv -> path_ok s sv SlLstat (w ++ [cl]) -> no_setgid_parent s sv (w ++ [cl]) ->
+  step_hyps s sv -> path_ok s sv SlLstat (w ++ [cl]) ->
   has flag O_CREATE = true -> has flag O_EXCL = true ->
   let p := abs_path (w ++ [cl]) in
   open_sim (open_file s (sv_view sv) vi p flag perm) (k_open s sv p flag perm).
@@ -507,12 +506,12 @@ Theorem C01_rel_name_resolved : forall (s : fsys) (sv : sview) (bs : list str) (
 Proof. exact rel_name_resolved. Qed.
 
 Theorem C01_step_mkdir_p : forall (s : fsys) (sv : sview) (p cl : str), step_hyps s sv -> name_path p cl -> forall perm : N,
-  resolved s sv SlLstat p -> no_setgid_p s sv false p ->
+  resolved s sv SlLstat p ->
   (fst (mkdir s (sv_view sv) p perm), proj_res Linux (snd (mkdir s (sv_view sv) p perm))) = k_mkdir s sv p perm.
 Proof. exact step_mkdir_p. Qed.
 
 Theorem C01_step_symlink_p : forall (s : fsys) (sv : sview) (p cl : str), step_hyps s sv -> name_path p cl -> forall t : str,
-  resolved s sv SlLstat p -> no_setgid_p s sv false p ->
+  resolved s sv SlLstat p ->
   (fst (symlink s (sv_view sv) t p), proj_res Linux (snd (symlink s (sv_view sv) t p))) = k_symlink s sv (clean Linux t) p.
 Proof. exact step_symlink_p. Qed.
 
@@ -523,21 +522,21 @@ Proof. exact step_link_p. Qed.
 
 Theorem C01_step_write_file_p : forall (s : fsys) (sv : sview) (p cl : str) (data : list N) (perm : N),
   step_hyps s sv -> name_path p cl ->
-  resolved s sv SlLstat p -> resolved s sv SlEval p -> no_setgid_p s sv true p ->
+  resolved s sv SlLstat p -> resolved s sv SlEval p ->
   (fst (write_file s (sv_view sv) p data perm), proj_res Linux (snd (write_file s (sv_view sv) p data perm)))
   = go_write_file s sv p data perm.
 Proof. exact step_write_file_p. Qed.
 
 Theorem C01_step_open_create_p : forall (s : fsys) (sv : sview) (vi : nat) (p cl : str) (flag perm : N),
   step_hyps s sv -> name_path p cl ->
-  resolved s sv SlLstat p -> resolved s sv SlEval p -> no_setgid_p s sv true p ->
+  resolved s sv SlLstat p -> resolved s sv SlEval p ->
   has flag O_CREATE = true -> has flag O_EXCL = false ->
   open_sim (open_file s (sv_view sv) vi p flag perm) (k_open s sv p flag perm).
 Proof. exact step_open_create_p. Qed.
 
 Theorem C01_step_open_excl_p : forall (s : fsys) (sv : sview) (vi : nat) (p cl : str) (flag perm : N),
   step_hyps s sv -> name_path p cl ->
-  resolved s sv SlLstat p -> no_setgid_p s sv false p ->
+  resolved s sv SlLstat p ->
   has flag O_CREATE = true -> has flag O_EXCL = true ->
   open_sim (open_file s (sv_view sv) vi p flag perm) (k_open s sv p flag perm).
 Proof. exact step_open_excl_p. Qed.
